@@ -341,6 +341,18 @@ def model_harness(doc: dict, package: str, data: Any, depth_max: int = 2, list_m
         src.append(func_source(fn2, g, body, f"tristate_ok({cls}, build(), build(), {names!r}, UNSET)"))
         funcs.append(fn2)
         meta[name] = {"class": cls, "args": len(g.args), "schema_keys": sorted(schema.keys()) if isinstance(schema, dict) else []}
+        # C10: the declared type admits None exactly when the document makes the property nullable, Unset exactly when optional
+        mprops, mreq = alts[0]["schema"].get("properties") or {}, alts[0]["schema"].get("required") or []
+        ntable = []
+        for wname, pyn in names:
+            if wname not in mprops:
+                continue
+            pal = alternatives(doc, mprops[wname])
+            has_default = isinstance(deref(doc, mprops[wname]), dict) and deref(doc, mprops[wname]).get("default") is not None
+            ntable.append((pyn, any(a["k"] == "null" for a in pal), wname not in mreq, any(a["k"] == "any" for a in pal)))
+        fnn = f"tri_hints_{cls}"
+        src.append(f'def {fnn}() -> bool:\n    """\n    post: _\n    """\n    return nullability_ok({cls}, {tuple(ntable)!r}, _NS, Unset)\n')
+        funcs.append(fnn)
         # C10/C15: what the document (after flattening allOf) requires is demanded by the decoder and the constructor
         req_doc = [r for r in (alts[0]["schema"].get("required") or []) if r in (alts[0]["schema"].get("properties") or {})]
         if req_doc:
@@ -418,7 +430,7 @@ def model_harness(doc: dict, package: str, data: Any, depth_max: int = 2, list_m
         why = f"component schema {name} declares properties/required of its own but no class was generated for it"
         src.append(f'def {fn7}() -> bool:\n    """\n    post: _\n    """\n    return missing_piece({why!r})\n')
         funcs.append(fn7)
-    src.insert(2, "from vlib.e3_support import annotations_ok, defaults_ok, membership_ok, missing_piece, required_ok, tristate_ok")
+    src.insert(2, "from vlib.e3_support import annotations_ok, defaults_ok, membership_ok, missing_piece, nullability_ok, required_ok, tristate_ok")
     src.insert(3, f"import {package}.models as _models\nimport datetime, uuid, typing\n_NS = dict(vars(_models), datetime=datetime, UUID=uuid.UUID, Unset=Unset, **vars(typing))")
     return "\n".join(src) + "\n", funcs, meta
 
